@@ -561,6 +561,15 @@ def upper_bound(fn, op, depth=12):
     p = op_place(op)
     if p is None or depth <= 0:
         return None
+    if len(p) == 3 and p[1] == "d:Some" and p[2] == "f:0":
+        # the payload of `a.checked_sub(k)`: exists only if it did not wrap, and is then a - k
+        c = fn.def_call(p[0])
+        if c and re.search(r"num::<impl u(size|64|32|16|8)>::checked_sub$", c.path or "") and len(c.args) == 2:
+            a = upper_bound(fn, c.args[0], depth - 1)
+            k = const_int(c.args[1])
+            if a is not None and k is not None and a >= k:
+                return a - k
+            return a
     if len(p) > 1 and not (len(p) == 2 and p[1] == "f:0"):
         # a member of a tuple / struct / Ok(..) built in this function (the landing of an inlined helper's result)
         o2 = _through_aggs(fn, p)
@@ -570,6 +579,17 @@ def upper_bound(fn, op, depth=12):
     tk = fn.local_ty(l)["k"] if len(p) == 1 else None
     best = INT_MAX.get(tk) if tk and tk.startswith("u") else None
     ds = fn.defs.get(l, [])
+    if len(p) == 1 and len(ds) == 1 and ds[0][1] == "term":
+        # `usize::from(x)` / `x.into()` of a narrower unsigned value keeps it
+        c = fn.def_call(l)
+        if c and re.search(r"convert::(From::from|Into::into)$", c.path or "") and len(c.args) == 1:
+            sk = operand_ty_kind(fn, c.args[0])
+            if sk and sk.startswith("u") and tk and tk.startswith("u") and INT_MAX.get(sk, 0) <= INT_MAX.get(tk, 0):
+                src = upper_bound(fn, c.args[0], depth - 1)
+                if src is None:
+                    src = INT_MAX.get(sk)
+                if src is not None:
+                    best = src if best is None else min(best, src)
     if len(ds) == 1 and ds[0][1] != "term":
         rv = ds[0][2]
         k = rv["k"]
@@ -644,6 +664,9 @@ def g_const(fn, edge):
     if msg.startswith("Overflow(Sh"):
         # shift amount must be < bit width of the shifted operand
         amt = upper_bound(fn, ops[1]) if len(ops) > 1 else None
+        famt = _ub_from_facts(fn, ops[1], edge.bb) if len(ops) > 1 else None      # `if n >= BITS { return None }` in front of it
+        if famt is not None:
+            amt = famt if amt is None else min(amt, famt)
         wk = operand_ty_kind(fn, ops[0]) if ops else None
         bits = INT_BITS.get(wk)
         if amt is not None and bits and amt < bits:
@@ -709,6 +732,12 @@ def _len_like(fn, op, depth=6):
     ub = upper_bound(fn, op)
     if ub is not None and ub < 2**48:
         return True
+    if len(p) > 1 and not (len(p) == 2 and p[1] == "f:0") and not (len(p) == 3 and p[1] == "d:Some"):
+        # a member of an Ok(..) / Continue(..) / tuple built in this function (the landing of an inlined helper's result)
+        o2 = _through_aggs(fn, p)
+        if o2 is not None and o2 != op and ("k" in o2 or len(op_place(o2)) == 1):
+            return _len_like(fn, o2, depth - 1)
+        return False
     l = p[0]
     ds = fn.defs.get(l, [])
     if not ds:
